@@ -19,7 +19,7 @@ func init() {
 		Replay: replay,
 		Rule: "E1 over placements x prefix usages: modules a (prefix table: p->n1, q->n2) and b (p->n2, r->n1, a->a) are chosen so that the same prefix means different namespaces in the two modules and each module knows a prefix the other does not; a must, a when or a leafref path is placed directly in a, in a grouping of a used in a, in a grouping of a used from b, in an augment written in b into a's tree, in a typedef of a used from b (leafref), in a refine/augment inside b's uses of a's grouping, and in a deviation written in b; the expression is one of 12 (prefix p / q / r / unknown, unprefixed, two prefixes, syntactically invalid forms from C04's reject set). " +
 			"Expected verdict: compiles iff the expression is syntactically valid and every prefix is known in the module where the statement is textually written; the error must name that module's file. On success every Name-Push of the compiled machine must carry the namespace the textual module's import table gives (unprefixed: the namespace of the module the node ends up in) and GetExpr() must be the source text. Non-trivial = every case.",
-		Bound: map[string]string{"quick": "9 placements x 3 statement kinds x 12 expressions", "thorough": "same, plus pairs of expressions in one module"},
+		Bound: map[string]string{"quick": "9 placements x 3 statement kinds x 12 expressions; 4 placements x 9 kind pairs x 5x4 expression pairs x 2 orders with a second statement written in b itself", "thorough": "same"},
 		Assumptions: []string{"for statements added by a deviation the namespace of unprefixed names is UNSPECIFIED (the node stays in the target module, the text is in the deviating module)"},
 	})
 }
@@ -117,6 +117,20 @@ type caseRec struct {
 	Placement string `json:"placement"`
 	Kind      string `json:"kind"` // must when path
 	Expr      int    `json:"expr"`
+	// a second statement written directly in module b (same compilation)
+	OwnKind  string `json:"own_kind,omitempty"`
+	OwnExpr  int    `json:"own_expr,omitempty"`
+	OwnFirst bool   `json:"own_first,omitempty"`
+}
+
+func stmtFor(kind string, i int) (string, expr) {
+	switch kind {
+	case "must":
+		return fmt.Sprintf("must %q;", exprs[i].Text), exprs[i]
+	case "when":
+		return fmt.Sprintf("leaf w { type string; when %q; }", exprs[i].Text), exprs[i]
+	}
+	return fmt.Sprintf("leaf lr { type leafref { path %q; } }", paths[i].Text), paths[i]
 }
 
 func build(cr caseRec) (mods map[string]string, pl placement, e expr, ok bool) {
@@ -141,6 +155,15 @@ func build(cr caseRec) (mods map[string]string, pl placement, e expr, ok bool) {
 		stmt = fmt.Sprintf("leaf lr { type leafref { path %q; } }", e.Text)
 	}
 	abody, bbody := pl.Build(stmt)
+	if cr.OwnKind != "" {
+		own, _ := stmtFor(cr.OwnKind, cr.OwnExpr)
+		own = "container own { leaf k { type string; } " + own + " }"
+		if cr.OwnFirst {
+			bbody = own + " " + bbody
+		} else {
+			bbody = bbody + " " + own
+		}
+	}
 	mods = map[string]string{
 		"n1": "module n1 { namespace \"urn:n1\"; prefix n1; container n1c { leaf y { type string; } leaf k { type string; } } }",
 		"n2": "module n2 { namespace \"urn:n2\"; prefix n2; container n2c { leaf y { type string; } list z { key y; leaf y { type string; } leaf w { type string; } } } }",
@@ -176,8 +199,29 @@ func check(cr caseRec) (vs []engine.Violation, outcome string) {
 			want = false
 		}
 	}
+	var own expr
+	anyFile := false
+	if cr.OwnKind != "" {
+		_, own = stmtFor(cr.OwnKind, cr.OwnExpr)
+		wantOwn := own.Valid
+		for _, p := range own.Pfx {
+			if _, known := tableB[p]; !known {
+				wantOwn = false
+			}
+		}
+		switch {
+		case want && !wantOwn:
+			pl.Textual = "b" // the error must name the file of the one invalid statement
+		case !want && !wantOwn:
+			anyFile = true // two invalid statements: either may be reported
+		}
+		want = want && wantOwn
+	}
 	res := gen.Compile(mods, gen.Options{})
 	cls := cr.Placement + ":" + cr.Kind
+	if cr.OwnKind != "" {
+		cls += "+own-" + cr.OwnKind
+	}
 	switch res.Verdict() {
 	case "panic", "nonterminating":
 		mk(res.Verdict()+":"+cls, fmt.Sprint(res.Panic))
@@ -191,7 +235,7 @@ func check(cr caseRec) (vs []engine.Violation, outcome string) {
 		if strings.Contains(mods["a"], "include s;") {
 			file = "s.yang"
 		}
-		if pl.Name == "deviation-from-b" {
+		if pl.Name == "deviation-from-b" || anyFile {
 			// the statement ends up on a node of module a, the text is in b: which location to name is unspecified
 			return vs, "error"
 		}
@@ -210,8 +254,25 @@ func check(cr caseRec) (vs []engine.Violation, outcome string) {
 	}
 	// namespaces in the compiled machine
 	d := gen.DumpString(res.MS, gen.DumpOpts{})
-	node := pl.Node
-	switch cr.Kind {
+	if cr.OwnKind != "" {
+		// first the statement written in b itself
+		vs = append(vs, checkNode(d, "/own", cr.OwnKind, own, tableB, "urn:b", false, cls+":own-statement", mk2(cr, mods))...)
+	}
+	vs = append(vs, checkNode(d, pl.Node, cr.Kind, e, table, pl.EndsIn, pl.Unspec, cr.Placement+":"+cr.Kind, mk2(cr, mods))...)
+	return vs, "ok"
+}
+
+func mk2(cr caseRec, mods map[string]string) func(key, witness, detail string) engine.Violation {
+	return func(key, witness, detail string) engine.Violation {
+		return engine.Violation{Key: key, Witness: witness, Detail: detail + "\n" + mods["a"] + "\n" + mods["b"] + mods["s"], Harness: "scope", Replay: engine.JSON(cr)}
+	}
+}
+
+func checkNode(d, node, kind string, e expr, table map[string]string, endsIn string, unspec bool, cls string, mkv func(key, witness, detail string) engine.Violation) (vs []engine.Violation) {
+	mk := func(key, detail string) {
+		vs = append(vs, mkv(key, fmt.Sprintf("%s %q", cls, e.Text), detail))
+	}
+	switch kind {
 	case "when":
 		node += "/w"
 	case "path":
@@ -225,7 +286,7 @@ func check(cr caseRec) (vs []engine.Violation, outcome string) {
 	}
 	if line == "" {
 		mk("node-missing:"+cls, node+" not in the schema")
-		return vs, "ok"
+		return vs
 	}
 	if !strings.Contains(line, fmt.Sprintf("%q", e.Text)) && !strings.Contains(line, strings.ReplaceAll(fmt.Sprintf("%q", e.Text), `"`, `\"`)) {
 		mk("expression-text-lost:"+cls, "GetExpr() is not the source text "+e.Text)
@@ -244,10 +305,10 @@ func check(cr caseRec) (vs []engine.Violation, outcome string) {
 	sort.Strings(names)
 	for _, n := range names {
 		pfx := e.Names[n]
-		wantNs := pl.EndsIn
+		wantNs := endsIn
 		if pfx != "" {
 			wantNs = table[pfx]
-		} else if pl.Unspec {
+		} else if unspec {
 			continue
 		}
 		if len(got[n]) == 0 {
@@ -266,7 +327,7 @@ func check(cr caseRec) (vs []engine.Violation, outcome string) {
 			mk("wrong-namespace:"+cls+":"+kind, fmt.Sprintf("name %s (prefix %q) compiled with namespace %v, expected %s", n, pfx, g, wantNs))
 		}
 	}
-	return vs, "ok"
+	return vs
 }
 
 func pfxClass(e expr) string {
@@ -290,7 +351,7 @@ func run(c *engine.Ctx) {
 				if c.Expired() {
 					return
 				}
-				cr := caseRec{pl.Name, kind, i}
+				cr := caseRec{Placement: pl.Name, Kind: kind, Expr: i}
 				id := fmt.Sprintf("%s:%s:%d", pl.Name, kind, i)
 				if !c.Owns(id) || !c.Case(id) {
 					continue
@@ -302,6 +363,39 @@ func run(c *engine.Ctx) {
 				c.Outcome(kind + ":" + outcome)
 				for _, v := range vs {
 					c.Report(v)
+				}
+			}
+		}
+	}
+	// pairs: a statement of module a that ends up in b, and a statement written in b itself,
+	// in one compilation (same prefix strings, different meanings or unknown in one of them)
+	for _, pn := range []string{"grouping-used-from-b", "nested-grouping-from-b", "typedef-of-a-used-from-b", "augment-from-b"} {
+		for _, k1 := range []string{"must", "when", "path"} {
+			if pn == "typedef-of-a-used-from-b" && k1 != "path" {
+				continue
+			}
+			for _, k2 := range []string{"must", "when", "path"} {
+				for _, e1 := range []int{0, 1, 2, 4, 5} {
+					for _, e2 := range []int{0, 1, 2, 3} {
+						for _, first := range []bool{false, true} {
+							if c.Expired() {
+								return
+							}
+							cr := caseRec{Placement: pn, Kind: k1, Expr: e1, OwnKind: k2, OwnExpr: e2, OwnFirst: first}
+							id := fmt.Sprintf("pair:%s:%s:%d:%s:%d:%v", pn, k1, e1, k2, e2, first)
+							if !c.Owns(id) || !c.Case(id) {
+								continue
+							}
+							c.Add("states", 1)
+							c.Add("transitions", 1)
+							c.Nontrivial()
+							vs, outcome := check(cr)
+							c.Outcome("pair:" + outcome)
+							for _, v := range vs {
+								c.Report(v)
+							}
+						}
+					}
 				}
 			}
 		}
